@@ -134,7 +134,8 @@ func StyleLegal(style, s string) bool {
 		return true
 	case "literal":
 		// content lines must not be blank-only at the start, no trailing spaces issues; keep it to simple multi-line texts
-		if s == "" || !strings.HasSuffix(s, "\n") || strings.HasPrefix(s, "\n") || strings.HasPrefix(s, " ") || strings.Contains(s, "\n\n") || strings.Contains(s, "\t") || strings.HasSuffix(s, "\n\n") {
+		// one leading blank line and blank lines between paragraphs need no indicator; leading spaces and trailing blank lines would
+		if s == "" || s == "\n" || !strings.HasSuffix(s, "\n") || strings.HasPrefix(s, "\n\n") || strings.HasPrefix(s, " ") || strings.HasPrefix(s, "\n ") || strings.Contains(s, "\n\n\n") || strings.Contains(s, "\t") || strings.HasSuffix(s, "\n\n") {
 			return false
 		}
 		for _, r := range s {
